@@ -327,4 +327,40 @@ theorem poly_tree_inj {one : Nat} {sh : Nat → Shape} {s t : NExp} (hs : isPoly
   · intro x
     exact ⟨monos_subset hs ht ws wt h x, monos_subset ht hs wt ws h.symm x⟩
 
+theorem phi_ne_zero {one : Nat} {sh : Nat → Shape} {t : NExp} (ht : isPoly one t = true)
+    (wt : wfS sh t = true) : phi t ≠ 0 := by
+  obtain ⟨t1, t2, _, t4⟩ := monos_facts ht
+  have dt : (monos t).Pairwise (fun a b => kB a ≠ kB b) := by
+    refine List.Pairwise.imp_of_mem ?_ t4
+    intro a b ha hb hab
+    exact kB_ne_of_lt (t2 a ha) (t2 b hb) (wfS_monos sh t wt a ha) (wfS_monos sh t wt b hb) hab
+  intro h0
+  have hm := lastMono_mem ht
+  have c := coeff_sumL_one _ dt _ hm
+  rw [← t1, h0] at c
+  exact cf_pos (t2 _ hm) (by simpa using c.symm)
+
+theorem phi_eq_of_toPoly_eq {s t : NExp} (h : Poly.toPoly (emb s) = Poly.toPoly (emb t)) : phi s = phi t := by
+  apply MvPolynomial.funext
+  intro ρ
+  rw [eval_phi, eval_phi, ← evalE_emb, ← evalE_emb, ← Poly.evalPoly_toPoly, ← Poly.evalPoly_toPoly, h]
+
+/-- Two normal forms with the same polynomial are the same tree. -/
+theorem nf_inj {one : Nat} {sh : Nat → Shape} {s t : NExp} (hs : isNF one s = true) (ht : isNF one t = true)
+    (ws : wfS sh s = true) (wt : wfS sh t = true)
+    (h : Poly.toPoly (emb s) = Poly.toPoly (emb t)) : s = t := by
+  have hp := phi_eq_of_toPoly_eq h
+  simp only [isNF, Bool.or_eq_true, beq_iff_eq] at hs ht
+  rcases hs with rfl | hs <;> rcases ht with rfl | ht
+  · rfl
+  · exfalso; exact phi_ne_zero ht wt (by rw [← hp]; simp [phi])
+  · exfalso; exact phi_ne_zero hs ws (by rw [hp]; simp [phi])
+  · exact poly_tree_inj hs ht ws wt hp
+
+/-- Canonicity of `norm_full`: same polynomial ⇒ identical normal form. -/
+theorem norm_eq_of_toPoly_eq {one : Nat} {sh : Nat → Shape} {a b : NExp} (wa : wfS sh a = true)
+    (wb : wfS sh b = true) (h : Poly.toPoly (emb a) = Poly.toPoly (emb b)) : norm one a = norm one b :=
+  nf_inj (norm_isNF one a) (norm_isNF one b) (wfS_norm sh one a wa) (wfS_norm sh one b wb)
+    (by rw [toPoly_emb_norm, toPoly_emb_norm, h])
+
 end Holpy.C10
